@@ -61,6 +61,19 @@ class Prog:
     def __init__(self, cls: ast.ClassDef, validators: list[ast.FunctionDef]):
         self.cls = cls
         self.validators = validators
+        self.active_names: set[str] = set()      # locals bound to `_config is not None`
+        self.unset_names: set[str] = set()       # locals bound to `_config is None`
+        self.depth = 0
+
+    def is_active_test(self, t: ast.AST) -> bool:
+        if _test_is_active(t):
+            return True
+        if isinstance(t, ast.Name) and t.id in self.active_names:
+            return True
+        if isinstance(t, ast.UnaryOp) and isinstance(t.op, ast.Not) and isinstance(t.operand, ast.Name) \
+                and t.operand.id in self.unset_names:
+            return True
+        return False
 
     def validator_events(self) -> list[str]:
         out: list[str] = []
@@ -81,12 +94,24 @@ class Prog:
             return []                                        # docstring
         if isinstance(st, ast.Raise):
             return ['.raise']
+        if isinstance(st, ast.Assign) and len(st.targets) == 1 and isinstance(st.targets[0], ast.Name) \
+                and not _is_singleton(st.targets[0]):
+            # a named condition on the singleton: `active = _config is not None`
+            if _test_is_active(st.value):
+                self.active_names.add(st.targets[0].id)
+                return []
+            if _test_is_active(ast.UnaryOp(op=ast.Not(), operand=st.value)) or (
+                    isinstance(st.value, ast.Compare) and len(st.value.ops) == 1 and _is_singleton(st.value.left)
+                    and isinstance(st.value.ops[0], ast.Is) and isinstance(st.value.comparators[0], ast.Constant)
+                    and st.value.comparators[0].value is None):
+                self.unset_names.add(st.targets[0].id)
+                return []
         if isinstance(st, ast.Assign) and any(_is_singleton(t) for t in st.targets):
             v = st.value
             ev = '.clear' if isinstance(v, ast.Constant) and v.value is None else '.assign'
             return ([f'.failPoint {stage}'] if _has_call(v) else []) + [ev]
         if isinstance(st, ast.If):
-            if _test_is_active(st.test) and st.body and isinstance(st.body[-1], ast.Raise) and not st.orelse:
+            if self.is_active_test(st.test) and st.body and isinstance(st.body[-1], ast.Raise) and not st.orelse:
                 return ['.checkUnset']
             if in_load and isinstance(st.test, ast.Compare) and isinstance(st.test.left, ast.Name) \
                     and st.test.left.id == 'config_file':
@@ -104,7 +129,7 @@ class Prog:
             return _dedupe(ev + body + orelse)
         if isinstance(st, ast.With):
             hdr = [f'.failPoint {0 if file_stage else stage}'] if any(_has_call(i.context_expr) for i in st.items) else []
-            if in_load and not file_stage and stage == 1 and self._is_packaged_default_read(st):
+            if in_load and not file_stage and self._is_packaged_default_read(st):
                 return []
             return _dedupe(hdr + self.block(st.body, stage, in_load, file_stage))
         if isinstance(st, ast.Try):
@@ -148,6 +173,22 @@ class Prog:
             f = c.func
             if isinstance(f, ast.Attribute) and f.attr == 'reset':
                 return self.block(self.method('reset').body, stage, False)
+        # a call of another method of the class (`self.m(...)`, `cls.m(...)`, `Config.m(...)`) as the whole statement value: its
+        # body inline, at the same stage (so that extracting a helper does not change the program)
+        if len(calls) >= 1 and self.depth < 4:
+            c = v if isinstance(v, ast.Call) else None
+            if c is not None and isinstance(c.func, ast.Attribute) and isinstance(c.func.value, ast.Name) \
+                    and c.func.value.id in ('self', 'cls', self.cls.name) and not any(_has_call(a) for a in c.args):
+                try:
+                    m = self.method(c.func.attr)
+                except CfgTranslationError:
+                    m = None
+                if m is not None:
+                    self.depth += 1
+                    try:
+                        return _dedupe(self.block(m.body, stage, in_load, file_stage))
+                    finally:
+                        self.depth -= 1
         pure = {'deep_update', 'dict', 'list', 'getattr', 'isinstance', 'len', 'Path', 'str'}
         names = {(c.func.id if isinstance(c.func, ast.Name) else c.func.attr if isinstance(c.func, ast.Attribute) else '?') for c in calls}
         if in_load and not file_stage and names <= pure:
